@@ -33,7 +33,36 @@ use std::sync::{Arc, Mutex};
 // ---------------------------------------------------------------------------------------------
 // logging doubles
 
-type Log = Arc<Mutex<Vec<(usize, String)>>>;
+/// (calling thread — `usize::MAX` outside the concurrent streams —, base recorder, event), in real-time order
+type Log = Arc<Mutex<Vec<(usize, usize, String)>>>;
+
+thread_local! {
+    /// the client thread number of the concurrent streams
+    static TID: std::cell::Cell<usize> = std::cell::Cell::new(usize::MAX);
+}
+
+/// Every call INTO a base recorder (or a handle made by one) is a yield point of the deterministic scheduler:
+/// the calling thread parks in front of it (no-op when no scheduler is installed).
+fn log_push(log: &Log, id: usize, ev: String) {
+    metrics::verif::point("c13.base");
+    let t = TID.with(|t| t.get());
+    // free-running client threads write to a private buffer (flushed when the thread ends): no lock in the doubles,
+    // so that the threads really overlap inside the layers' code
+    let buffered = TBUF.with(|b| match b.borrow_mut().as_mut() {
+        Some(v) => {
+            v.push((t, id, ev.clone()));
+            true
+        }
+        None => false,
+    });
+    if !buffered {
+        log.lock().unwrap().push((t, id, ev));
+    }
+}
+
+thread_local! {
+    static TBUF: std::cell::RefCell<Option<Vec<(usize, usize, String)>>> = std::cell::RefCell::new(None);
+}
 type BoxRec = Box<dyn Recorder + Sync>;
 
 const KINDS: [&str; 3] = ["c", "g", "h"];
@@ -56,11 +85,11 @@ struct LogRec {
 impl LogRec {
     fn describe(&self, kind: usize, name: KeyName, unit: Option<Unit>, desc: SharedString) {
         let ev = format!("D/{}/{}/{}/{}", KINDS[kind], hexs(name.as_str()), unit_tok(unit), hexs(desc.as_ref()));
-        self.log.lock().unwrap().push((self.id, ev));
+        log_push(&self.log, self.id, ev);
     }
     fn register(&self, kind: usize, key: &Key, m: &Metadata<'_>) -> Arc<LogHandle> {
         let desc = format!("{}/{}/{}/{}", KINDS[kind], hexs(key.name()), pairs(&key_labels(key)), meta_tok(m));
-        self.log.lock().unwrap().push((self.id, format!("R/{}", desc)));
+        log_push(&self.log, self.id, format!("R/{}", desc));
         Arc::new(LogHandle { id: self.id, log: self.log.clone(), desc })
     }
 }
@@ -93,7 +122,7 @@ struct LogHandle {
 }
 impl LogHandle {
     fn push(&self, upd: String) {
-        self.log.lock().unwrap().push((self.id, format!("U/{}/{}", self.desc, upd)));
+        log_push(&self.log, self.id, format!("U/{}/{}", self.desc, upd));
     }
 }
 impl CounterFn for LogHandle {
@@ -755,6 +784,111 @@ enum SOp {
     R { kind: usize, name: String, labels: Vec<(String, String)>, target: String, level: usize, module: Option<String> },
     /// `via_clone`: the call is made on a fresh clone of the handle (handles are `Arc`s), which is then dropped
     U { handle: usize, upd: Upd, via_clone: bool },
+    /// the recorder tree is dropped; the handles obtained so far live on (only `U` may follow)
+    X,
+}
+
+/// what the `metrics` macros put into `Metadata` (target and module path of the calling module, level INFO)
+const MACRO_MOD: &str = module_path!();
+
+fn leak(s: &str) -> &'static str {
+    Box::leak(s.to_string().into_boxed_str())
+}
+
+/// The five ways a describe reaches the top recorder (`variant` rotates with the position in the script): name and
+/// description owned / `const` (`KeyName::from_const_str`, `SharedString::const_str`) / shared (`Arc<str>`), the
+/// trait method on the tree itself / on `&dyn Recorder` obtained through `with_local_recorder` + `with_recorder`
+/// / the `describe_*!` macros.  All of them must be indistinguishable below the layers.
+fn do_describe(top: &BoxRec, variant: usize, kind: usize, name: &str, unit: Option<Unit>, desc: &str, out: &mut Out) {
+    let small = name.len() + desc.len() <= 600;
+    let v = if (variant == 1 && !small) || (variant == 4 && unit.is_none()) { 0 } else { variant };
+    let (kn, d): (KeyName, SharedString) = match v {
+        1 => (KeyName::from_const_str(leak(name)), SharedString::const_str(leak(desc))),
+        2 => (
+            KeyName::from(SharedString::from_shared(Arc::from(name))),
+            SharedString::from_shared(Arc::from(desc)),
+        ),
+        _ => (KeyName::from(name.to_string()), desc.to_string().into()),
+    };
+    out.count(["describe via: owned strings", "describe via: const strings", "describe via: Arc<str> strings", "describe via: with_local_recorder + with_recorder", "describe via: describe_*! macro"][v]);
+    match v {
+        3 => metrics::with_local_recorder(top.as_ref(), || {
+            metrics::with_recorder(|r| match kind {
+                0 => r.describe_counter(kn, unit, d),
+                1 => r.describe_gauge(kn, unit, d),
+                _ => r.describe_histogram(kn, unit, d),
+            })
+        }),
+        4 => metrics::with_local_recorder(top.as_ref(), || match kind {
+            0 => metrics::describe_counter!(name.to_string(), unit.unwrap(), desc.to_string()),
+            1 => metrics::describe_gauge!(name.to_string(), unit.unwrap(), desc.to_string()),
+            _ => metrics::describe_histogram!(name.to_string(), unit.unwrap(), desc.to_string()),
+        }),
+        _ => match kind {
+            0 => top.describe_counter(kn, unit, d),
+            1 => top.describe_gauge(kn, unit, d),
+            _ => top.describe_histogram(kn, unit, d),
+        },
+    }
+}
+
+/// The ways a register reaches the top recorder: `Key::from_parts` over owned strings / `Key::from_static_parts`
+/// (what the macros build for literals) / an `Arc<str>` name / a clone of a key whose hash has already been
+/// computed and cached / `Key::from_name(..).with_extra_labels(..)`; and — when the operation's metadata is what
+/// the macros produce — the `counter!` / `gauge!` / `histogram!` macros under `with_local_recorder`.
+fn do_register(
+    top: &BoxRec,
+    variant: usize,
+    kind: usize,
+    name: &str,
+    labels: &[(String, String)],
+    md: &Metadata<'_>,
+    macro_meta: bool,
+    out: &mut Out,
+) -> AnyHandle {
+    let mk_labels = || labels.iter().map(|(k, v)| Label::new(k.clone(), v.clone())).collect::<Vec<_>>();
+    let small = name.len() + labels.iter().map(|(k, v)| k.len() + v.len()).sum::<usize>() <= 600;
+    let v = if variant == 1 && !small { 0 } else { variant };
+    if v == 4 && macro_meta {
+        out.count("register via: counter!/gauge!/histogram! macro under with_local_recorder");
+        return metrics::with_local_recorder(top.as_ref(), || {
+            if labels.is_empty() {
+                match kind {
+                    0 => AnyHandle::C(metrics::counter!(name.to_string())),
+                    1 => AnyHandle::G(metrics::gauge!(name.to_string())),
+                    _ => AnyHandle::H(metrics::histogram!(name.to_string())),
+                }
+            } else {
+                match kind {
+                    0 => AnyHandle::C(metrics::counter!(name.to_string(), mk_labels())),
+                    1 => AnyHandle::G(metrics::gauge!(name.to_string(), mk_labels())),
+                    _ => AnyHandle::H(metrics::histogram!(name.to_string(), mk_labels())),
+                }
+            }
+        });
+    }
+    out.count(["register via: Key::from_parts (owned)", "register via: Key::from_static_parts", "register via: Arc<str> name", "register via: clone of a key with cached hash", "register via: Key::from_name + with_extra_labels"][v]);
+    let key = match v {
+        1 => {
+            let ls: &'static [Label] = Box::leak(
+                labels.iter().map(|(k, v)| Label::from_static_parts(leak(k), leak(v))).collect::<Vec<_>>().into_boxed_slice(),
+            );
+            Key::from_static_parts(leak(name), ls)
+        }
+        2 => Key::from_parts(SharedString::from_shared(Arc::from(name)), mk_labels()),
+        3 => {
+            let k = Key::from_parts(name.to_string(), mk_labels());
+            let _ = k.get_hash();
+            k.clone()
+        }
+        4 => Key::from_name(name.to_string()).with_extra_labels(mk_labels()),
+        _ => Key::from_parts(name.to_string(), mk_labels()),
+    };
+    match kind {
+        0 => AnyHandle::C(top.register_counter(&key, md)),
+        1 => AnyHandle::G(top.register_gauge(&key, md)),
+        _ => AnyHandle::H(top.register_histogram(&key, md)),
+    }
 }
 
 enum AnyHandle {
@@ -773,7 +907,7 @@ struct Registered {
 
 fn drain(log: &Log) -> Got {
     let mut got: Got = BTreeMap::new();
-    for (id, ev) in log.lock().unwrap().drain(..) {
+    for (_, id, ev) in log.lock().unwrap().drain(..) {
         got.entry(id).or_default().push(ev);
     }
     got
@@ -1041,7 +1175,7 @@ fn trace_filter(pats: &[String], ci: bool, name: &str, out: &mut Out) -> bool {
 
 fn run_case(out: &mut Out, tree: &Tree, script: &[SOp]) {
     let log: Log = Arc::new(Mutex::new(vec![]));
-    let top = build(tree, &log);
+    let mut top: Option<BoxRec> = Some(build(tree, &log));
     out.op(&format!("layers new {}", tree.tok()), "ok");
     let mut ks = [0usize; 6];
     tree.kinds(&mut ks);
@@ -1056,16 +1190,21 @@ fn run_case(out: &mut Out, tree: &Tree, script: &[SOp]) {
     }
     let mut handles: Vec<Registered> = vec![];
     let mut history: BTreeMap<usize, Vec<String>> = BTreeMap::new();
-    for op in script {
+    for (opi, op) in script.iter().enumerate() {
         match op {
-            SOp::D { kind, name, unit, desc } => {
-                let kn = KeyName::from(name.clone());
-                let d: SharedString = desc.clone().into();
-                match kind {
-                    0 => top.describe_counter(kn, *unit, d),
-                    1 => top.describe_gauge(kn, *unit, d),
-                    _ => top.describe_histogram(kn, *unit, d),
+            SOp::X => {
+                // the whole tree goes away (every layer, router, fan-out and base recorder); handles stay
+                drop(top.take());
+                out.op("layers drop", "ok");
+                out.count("op: recorder tree dropped, handles kept");
+                let got = drain(&log);
+                if !got.is_empty() {
+                    out.oracle_fail("dropping the recorder tree delivered something", &format!("tree {:?}: {:?}", tree, got));
                 }
+            }
+            SOp::D { kind, name, unit, desc } => {
+                let topr = top.as_ref().expect("generator: describe after drop");
+                do_describe(topr, (opi + name.len()) % 5, *kind, name, *unit, desc, out);
                 let got = drain(&log);
                 out.op(
                     &format!("layers d {} {} {} {}", KINDS[*kind], hexs(name), unit_tok(*unit), hexs(desc)),
@@ -1086,17 +1225,13 @@ fn run_case(out: &mut Out, tree: &Tree, script: &[SOp]) {
                 out.count(&format!("delivered to {} recorders", got.len().min(4)));
             }
             SOp::R { kind, name, labels, target, level, module } => {
-                let key = Key::from_parts(
-                    name.clone(),
-                    labels.iter().map(|(k, v)| Label::new(k.clone(), v.clone())).collect::<Vec<_>>(),
-                );
                 let lv = [Level::TRACE, Level::DEBUG, Level::INFO, Level::WARN, Level::ERROR][*level];
                 let md = Metadata::new(target.as_str(), lv, module.as_deref());
-                let h = match kind {
-                    0 => AnyHandle::C(top.register_counter(&key, &md)),
-                    1 => AnyHandle::G(top.register_gauge(&key, &md)),
-                    _ => AnyHandle::H(top.register_histogram(&key, &md)),
-                };
+                let macro_meta = target == MACRO_MOD && *level == 2 && module.as_deref() == Some(MACRO_MOD);
+                let topr = top.as_ref().expect("generator: register after drop");
+                // a macro-shaped metadata always takes the macro path when its turn comes, and one time in two otherwise
+                let variant = if macro_meta && opi % 2 == 0 { 4 } else { (opi + name.len()) % 5 };
+                let h = do_register(topr, variant, *kind, name, labels, &md, macro_meta, out);
                 let got = drain(&log);
                 let (ltok, mtok) = (pairs(labels), meta_tok(&md));
                 out.op(&format!("layers r {} {} {} {}", KINDS[*kind], hexs(name), ltok, mtok), &show(&got));
@@ -1118,6 +1253,9 @@ fn run_case(out: &mut Out, tree: &Tree, script: &[SOp]) {
             }
             SOp::U { handle, upd, via_clone } => {
                 let reg = &handles[*handle];
+                if top.is_none() {
+                    out.count("update: after the recorder tree was dropped");
+                }
                 let cloned = if *via_clone {
                     Some(match &reg.handle {
                         AnyHandle::C(c) => AnyHandle::C(c.clone()),
@@ -1560,8 +1698,11 @@ fn gen_tree(
             Tree::F { ci, dfa, pats, inner: Box::new(gen_tree(r, pool, depth - 1, next, budget, false, ctx)) }
         }
         3 => {
-            let n = r.weighted(&[1, 3, 4, 3, 2, 1, 1]);
-            let layers: Vec<LayerSpec> = (0..n).map(|_| gen_layer(r, pool)).collect();
+            // size ceilings: now and then far more pushes than the usual handful (mostly prefixes then)
+            let many = r.chance(1, 15);
+            let n = if many { *r.pick(&[8usize, 9, 16, 17, 33, 40]) } else { r.weighted(&[1, 3, 4, 3, 2, 1, 1]) };
+            let layers: Vec<LayerSpec> =
+                (0..n).map(|i| if many && i % 7 != 3 { LayerSpec::P(r.pick_str(&["", "p", "a", "é"]).to_string()) } else { gen_layer(r, pool) }).collect();
             let mut ctx2 = ctx.to_string();
             for l in layers.iter().rev() {
                 if let LayerSpec::P(p) = l {
@@ -1616,7 +1757,7 @@ fn gen_tree(
         5 => {
             // size ceilings: now and then a wide fan-out (plain children)
             if r.chance(1, 10) {
-                let w = r.range(6, 24);
+                let w = if r.chance(1, 3) { *r.pick(&[31usize, 32, 33, 64, 65, 70]) } else { r.range(6, 24) };
                 return Tree::N((0..w).map(|_| gen_tree(r, pool, 0, next, budget, false, ctx)).collect());
             }
             let w = r.weighted(&[1, 2, 5, 4, 2]);
@@ -1693,8 +1834,22 @@ fn gen_upd(r: &mut Rng, kind: usize) -> Upd {
 fn gen_script(r: &mut Rng, pool: &Pool, n: usize) -> Vec<SOp> {
     let mut script = vec![];
     let mut kinds: Vec<usize> = vec![];
-    for _ in 0..n {
-        let c = if kinds.is_empty() { r.weighted(&[3, 5]) } else { r.weighted(&[3, 4, 4]) };
+    // one case in five drops the recorder tree somewhere in the second half of the script: from then on only
+    // updates through the handles that outlive it
+    let drop_at = if r.chance(1, 5) { Some(r.range(n / 2, n.max(1) - 1)) } else { None };
+    let mut dropped = false;
+    for i in 0..n {
+        if Some(i) == drop_at && !kinds.is_empty() {
+            script.push(SOp::X);
+            dropped = true;
+        }
+        let c = if dropped {
+            2
+        } else if kinds.is_empty() {
+            r.weighted(&[3, 5])
+        } else {
+            r.weighted(&[3, 4, 4])
+        };
         match c {
             0 => script.push(SOp::D {
                 kind: r.below(3),
@@ -1704,16 +1859,25 @@ fn gen_script(r: &mut Rng, pool: &Pool, n: usize) -> Vec<SOp> {
             }),
             1 => {
                 let kind = r.below(3);
-                let labels =
-                    (0..r.weighted(&[3, 3, 2, 1])).map(|_| (wild_string(r, true), wild_string(r, false))).collect();
+                // size ceilings: now and then far more labels than any inline capacity (4, 8, 16, 32)
+                let nl = if r.chance(1, 12) { *r.pick(&[4usize, 5, 8, 9, 16, 17, 33, 64]) } else { r.weighted(&[3, 3, 2, 1]) };
+                let labels = (0..nl).map(|_| (wild_string(r, true), wild_string(r, false))).collect();
                 kinds.push(kind);
+                // a fifth of the registrations carry exactly the metadata the macros produce (and go through them)
+                let macro_meta = r.chance(1, 5);
                 script.push(SOp::R {
                     kind,
                     name: pool.op_name(r),
                     labels,
-                    target: r.pick_str(&["mv", "", "a::b", "é"]).to_string(),
-                    level: r.below(5),
-                    module: if r.chance(1, 2) { None } else { Some(r.pick_str(&["mv::m", ""]).to_string()) },
+                    target: if macro_meta { MACRO_MOD.to_string() } else { r.pick_str(&["mv", "", "a::b", "é", MACRO_MOD]).to_string() },
+                    level: if macro_meta { 2 } else { r.below(5) },
+                    module: if macro_meta {
+                        Some(MACRO_MOD.to_string())
+                    } else if r.chance(1, 2) {
+                        None
+                    } else {
+                        Some(r.pick_str(&["mv::m", "", MACRO_MOD]).to_string())
+                    },
                 });
             }
             _ => {
@@ -1934,7 +2098,104 @@ fn corpus() -> Vec<(&'static str, Tree, Vec<SOp>)> {
         routes: (0..40usize).map(|i| ((i % 4) as u8, format!("r{}", "ab".repeat(i % 7)) + &format!("{}", i % 3), b(i + 1))).collect(),
     };
     let mr_names = ["r", "r0", "r1", "rab", "rab1", "rabab2x", "rababab", "rabababababab0", "rabababababab0.x", "x"];
+    // handles that outlive the tree that made them (every layer kind on the way)
+    let outlive = {
+        let tree = Tree::S(
+            vec![LayerSpec::P(s("o"))],
+            Box::new(Tree::R {
+                dflt: Box::new(Tree::N(vec![b(0), Tree::N(vec![b(1), Tree::P(s("q"), Box::new(b(2)))])])),
+                routes: vec![(3, s("o.r"), Tree::N(vec![b(3), b(4)])), (0, s("o.f"), Tree::F { ci: true, dfa: true, pats: vec![s("DROP")], inner: Box::new(b(5)) })],
+            }),
+        );
+        let mut script = vec![];
+        for (i, nm) in ["x", "r1", "f.c", "f.drop"].iter().enumerate() {
+            for kind in 0..3 {
+                script.push(SOp::R { kind, name: s(nm), labels: vec![(s("k"), s("v"))], target: s("mv"), level: (i + kind) % 5, module: None });
+            }
+        }
+        script.push(SOp::U { handle: 0, upd: Upd::CInc(1), via_clone: false });
+        script.push(SOp::X);
+        for h in 0..12 {
+            let upds = match h % 3 {
+                0 => vec![Upd::CInc(7), Upd::CAbs(9), Upd::CInc(7)],
+                1 => vec![Upd::GSet(1.5), Upd::GInc(2.0), Upd::GDec(f64::NAN)],
+                _ => vec![Upd::HRec(0.5), Upd::HMany(2.0, 3), Upd::HMany(2.0, 0)],
+            };
+            for (j, u) in upds.into_iter().enumerate() {
+                script.push(SOp::U { handle: h, upd: u, via_clone: j == 1 });
+            }
+        }
+        (tree, script)
+    };
+    // counts beyond any bounded memo a layer could keep: 1100 distinct names (and as many live handles) through ONE
+    // filter, ONE router and ONE fan-out instance, the first names coming round again at the end
+    let many_names = {
+        let tree = Tree::S(
+            vec![LayerSpec::F { ci: true, dfa: false, pats: vec![s("Z7"), s("n99")] }],
+            Box::new(Tree::R {
+                dflt: Box::new(Tree::N(vec![b(0), b(1)])),
+                routes: vec![(3, s("n1"), b(2)), (0, s("n10"), b(3)), (3, s("n2"), Tree::N(vec![b(4), b(5)]))],
+            }),
+        );
+        let mut script = vec![];
+        let total = 1100usize;
+        for i in 0..total + 40 {
+            let nm = if i % 11 == 10 { format!("n{}z7", i % total) } else { format!("n{}", i % total) };
+            let kind = i % 3;
+            if i % 4 == 3 {
+                script.push(SOp::D { kind, name: nm.clone(), unit: Some(Unit::Count), desc: s("d") });
+            }
+            script.push(SOp::R { kind, name: nm, labels: vec![], target: s("mv"), level: 2, module: None });
+            let upd = match kind {
+                0 => Upd::CInc(i as u64),
+                1 => Upd::GSet(i as f64),
+                _ => Upd::HRec(i as f64),
+            };
+            script.push(SOp::U { handle: i, upd, via_clone: false });
+        }
+        // every 50th of the early handles once more, after everything else
+        for h in (0..total).step_by(50) {
+            let upd = match h % 3 {
+                0 => Upd::CAbs(1),
+                1 => Upd::GInc(1.0),
+                _ => Upd::HMany(1.0, 2),
+            };
+            script.push(SOp::U { handle: h, upd, via_clone: true });
+        }
+        (tree, script)
+    };
+    let wide65 = Tree::N((0..65).map(|i| if i == 32 { Tree::N(vec![b(100), b(101)]) } else { b(i) }).collect());
+    let stack40 = Tree::S((0..40).map(|i| if i == 20 { LayerSpec::F { ci: false, dfa: true, pats: vec![s("p19.p18")] } } else { LayerSpec::P(format!("p{}", i)) }).collect(), Box::new(b(0)));
+    let many_labels = {
+        let mut script = vec![];
+        for (h, n) in [4usize, 5, 8, 9, 16, 17, 32, 33, 100].iter().enumerate() {
+            script.push(SOp::R {
+                kind: h % 3,
+                name: s("app.l"),
+                labels: (0..*n).map(|i| (format!("k{}", i % 7), format!("v{}", i))).collect(),
+                target: s("mv"),
+                level: 2,
+                module: None,
+            });
+            let upd = match h % 3 {
+                0 => Upd::CInc(1),
+                1 => Upd::GSet(1.0),
+                _ => Upd::HRec(1.0),
+            };
+            script.push(SOp::U { handle: h, upd, via_clone: false });
+        }
+        let tree = Tree::P(
+            s("p"),
+            Box::new(Tree::R { dflt: Box::new(b(0)), routes: vec![(3, s("p.app"), Tree::N(vec![b(1), Tree::F { ci: false, dfa: true, pats: vec![s("zz")], inner: Box::new(b(2)) }]))] }),
+        );
+        (tree, script)
+    };
     vec![
+        ("handles-outlive-tree", outlive.0, outlive.1),
+        ("many-distinct-names", many_names.0, many_names.1),
+        ("fanout-65-wide", wide65, full_script(&["a", ""])),
+        ("stack-40-pushes", stack40, full_script(&["a", "p18", ""])),
+        ("labels-4-to-100", many_labels.0, many_labels.1),
         ("router-sibling-routes", siblings, full_script(&sibling_names)),
         ("router-sibling-routes-no-parent", rootless_siblings, full_script(&["a", "ab", "ac", "ar", "ax", "xyz", "xyz3", "xy", "", "b"])),
         ("filter-builder-default-add", chain(FInit::Default, vec![FOp::Add(s("tokio")), FOp::Add(s("Tokio")), FOp::Add(s("bb8"))]), full_script(&bnames)),
@@ -2064,7 +2325,578 @@ fn enum_updates(out: &mut Out, len: usize) {
     }
 }
 
+/// `add_route` with EVERY value a `MetricKindMask` can take (the type is a bit set closed under `|`: NONE, the three
+/// kinds, their three pairwise unions, ALL).  For each value: does `add_route` panic, and if not, which kinds does
+/// the route apply to (observed by registering one metric of each kind)?  The model (`Mask.ofBits`) follows the
+/// code: exactly COUNTER, GAUGE, HISTOGRAM and ALL are accepted.  Oracle, from the meaning of a mask
+/// ("`mask` defines which metric kinds will match the given route"): a mask that IS accepted must apply to exactly
+/// the kinds it names — never to a part of them.
+fn mask_cases(out: &mut Out) {
+    out.case("corpus add-route-every-mask-value");
+    out.count("case: corpus");
+    let prev = std::panic::take_hook();
+    std::panic::set_hook(Box::new(|_| {}));
+    for bits in 0u8..8 {
+        let mut mask = MetricKindMask::NONE;
+        for (i, m) in [MetricKindMask::COUNTER, MetricKindMask::GAUGE, MetricKindMask::HISTOGRAM].iter().enumerate() {
+            if bits & (1 << i) != 0 {
+                mask = mask | *m;
+            }
+        }
+        let log: Log = Arc::new(Mutex::new(vec![]));
+        let l2 = log.clone();
+        let built = std::panic::catch_unwind(std::panic::AssertUnwindSafe(move || {
+            let mut b = RouterBuilder::from_recorder(LogRec { id: 0, log: l2.clone() });
+            b.add_route(mask, "x", LogRec { id: 1, log: l2.clone() });
+            b.build()
+        }));
+        let answer = match built {
+            Err(_) => "panic".to_string(),
+            Ok(router) => {
+                let key = Key::from_name("xy");
+                let md = Metadata::new("mv", Level::INFO, None);
+                let mut kinds = vec![];
+                for kind in 0..3 {
+                    match kind {
+                        0 => drop(router.register_counter(&key, &md)),
+                        1 => drop(router.register_gauge(&key, &md)),
+                        _ => drop(router.register_histogram(&key, &md)),
+                    }
+                    let got = drain(&log);
+                    if got.contains_key(&1) {
+                        kinds.push(kind);
+                    }
+                }
+                let named: Vec<usize> = (0..3).filter(|k| bits & (1 << k) != 0).collect();
+                if kinds != named {
+                    out.oracle_fail(
+                        "an accepted route mask applies to other kinds than the ones it names",
+                        &format!(
+                            "add_route(mask with bits {:#05b} = kinds {:?}, \"x\", target) was accepted, but registering \"xy\" reaches the target for kinds {:?} (0 counter, 1 gauge, 2 histogram)",
+                            bits, named, kinds
+                        ),
+                    );
+                }
+                match kinds.as_slice() {
+                    [0] => "c".into(),
+                    [1] => "g".into(),
+                    [2] => "h".into(),
+                    [0, 1, 2] => "a".into(),
+                    other => format!("kinds{:?}", other),
+                }
+            }
+        };
+        out.count(&format!("add_route mask: {}", if answer == "panic" { "refused (panic)" } else { "accepted" }));
+        out.op(&format!("layers mask {}", bits), &answer);
+    }
+    std::panic::set_hook(prev);
+}
+
+// ---------------------------------------------------------------------------------------------
+// several client threads on one tree
+
+/// one client call of a thread in the concurrent streams
+#[derive(Clone, Debug)]
+enum CCall {
+    D { kind: usize, name: String, unit: Option<Unit>, desc: String },
+    R { kind: usize, name: String, labels: Vec<(String, String)>, level: usize },
+    /// an update through shared handle `i` (registered before the threads start) or own handle `i`
+    U { shared: bool, i: usize, upd: Upd },
+}
+
+struct SharedReg {
+    handle: AnyHandle,
+    kind: usize,
+    name: String,
+    labels: String,
+    meta: String,
+}
+
+fn clone_handle(h: &AnyHandle) -> AnyHandle {
+    match h {
+        AnyHandle::C(c) => AnyHandle::C(c.clone()),
+        AnyHandle::G(g) => AnyHandle::G(g.clone()),
+        AnyHandle::H(h) => AnyHandle::H(h.clone()),
+    }
+}
+
+fn apply_upd(h: &AnyHandle, upd: &Upd) {
+    match (h, upd) {
+        (AnyHandle::C(c), Upd::CInc(v)) => c.increment(*v),
+        (AnyHandle::C(c), Upd::CAbs(v)) => c.absolute(*v),
+        (AnyHandle::G(g), Upd::GInc(v)) => g.increment(*v),
+        (AnyHandle::G(g), Upd::GDec(v)) => g.decrement(*v),
+        (AnyHandle::G(g), Upd::GSet(v)) => g.set(*v),
+        (AnyHandle::H(h), Upd::HRec(v)) => h.record(*v),
+        (AnyHandle::H(h), Upd::HMany(v, n)) => h.record_many(*v, *n),
+        _ => panic!("generator produced an update of the wrong kind"),
+    }
+}
+
+fn log_push_marker(log: &Log, t: usize) {
+    let buffered = TBUF.with(|b| match b.borrow_mut().as_mut() {
+        Some(v) => {
+            v.push((t, usize::MAX, String::new()));
+            true
+        }
+        None => false,
+    });
+    if !buffered {
+        log.lock().unwrap().push((t, usize::MAX, String::new()));
+    }
+}
+
+/// the body of client thread `t`: its calls in order, an end-of-call marker in the log after each
+fn client_body(t: usize, top: &(dyn Recorder + Sync), shared: &[AnyHandle], calls: &[CCall], log: &Log, buffered: bool) {
+    TID.with(|x| x.set(t));
+    if buffered {
+        TBUF.with(|b| *b.borrow_mut() = Some(Vec::with_capacity(calls.len() * 4)));
+    }
+    let mut own: Vec<AnyHandle> = vec![];
+    for (ci, c) in calls.iter().enumerate() {
+        match c {
+            CCall::D { kind, name, unit, desc } => {
+                let (kn, d): (KeyName, SharedString) = (KeyName::from(name.clone()), desc.clone().into());
+                match kind {
+                    0 => top.describe_counter(kn, *unit, d),
+                    1 => top.describe_gauge(kn, *unit, d),
+                    _ => top.describe_histogram(kn, *unit, d),
+                }
+            }
+            CCall::R { kind, name, labels, level } => {
+                let key = if (ci + t) % 2 == 0 {
+                    Key::from_parts(name.clone(), labels.iter().map(|(k, v)| Label::new(k.clone(), v.clone())).collect::<Vec<_>>())
+                } else {
+                    let k = Key::from_parts(
+                        SharedString::from_shared(Arc::from(name.as_str())),
+                        labels.iter().map(|(k, v)| Label::new(k.clone(), v.clone())).collect::<Vec<_>>(),
+                    );
+                    let _ = k.get_hash();
+                    k
+                };
+                let lv = [Level::TRACE, Level::DEBUG, Level::INFO, Level::WARN, Level::ERROR][*level];
+                let md = Metadata::new("mv", lv, None);
+                own.push(match kind {
+                    0 => AnyHandle::C(top.register_counter(&key, &md)),
+                    1 => AnyHandle::G(top.register_gauge(&key, &md)),
+                    _ => AnyHandle::H(top.register_histogram(&key, &md)),
+                });
+            }
+            CCall::U { shared: sh, i, upd } => apply_upd(if *sh { &shared[*i] } else { &own[*i] }, upd),
+        }
+        log_push_marker(log, t);
+    }
+    if let Some(buf) = TBUF.with(|b| b.borrow_mut().take()) {
+        log.lock().unwrap().extend(buf);
+    }
+    TID.with(|x| x.set(usize::MAX));
+}
+
+fn ccall_line(t: usize, c: &CCall) -> String {
+    match c {
+        CCall::D { kind, name, unit, desc } => format!("layers cq {} d {} {} {} {}", t, KINDS[*kind], hexs(name), unit_tok(*unit), hexs(desc)),
+        CCall::R { kind, name, labels, level } => {
+            format!("layers cq {} r {} {} {} {}+{}+~", t, KINDS[*kind], hexs(name), pairs(labels), hexs("mv"), level)
+        }
+        CCall::U { shared, i, upd } => format!("layers cq {} u {} {} {}", t, if *shared { "s" } else { "o" }, i, upd.tok()),
+    }
+}
+
+/// Implementation-side oracle for a concurrent run, independent of the model: the part of the global log caused by
+/// each client call (thread tag + end-of-call markers) must be what the property demands of that call ALONE —
+/// the same `check` as in the sequential streams, whatever the other threads were doing meanwhile.
+fn conc_oracle(out: &mut Out, tree: &Tree, shared: &[SharedReg], scripts: &[Vec<CCall>], log: &[(usize, usize, String)], how: &str) {
+    for (t, calls) in scripts.iter().enumerate() {
+        let mut per_call: Vec<Got> = vec![BTreeMap::new()];
+        for (tid, id, ev) in log.iter().filter(|e| e.0 == t) {
+            let _ = tid;
+            if *id == usize::MAX {
+                per_call.push(BTreeMap::new());
+            } else {
+                per_call.last_mut().unwrap().entry(*id).or_default().push(ev.clone());
+            }
+        }
+        if per_call.len() != calls.len() + 1 || !per_call.last().unwrap().is_empty() {
+            out.oracle_fail("concurrent clients: a thread's log does not split into its calls", &format!("tree {:?}; thread {} ({}): {} calls, {} segments", tree, t, how, calls.len(), per_call.len()));
+            continue;
+        }
+        let mut own: Vec<(usize, String, String, String)> = vec![];
+        for (c, got) in calls.iter().zip(per_call.iter()) {
+            let res = match c {
+                CCall::D { kind, name, unit, desc } => {
+                    let (k, u, d) = (KINDS[*kind], unit_tok(*unit), hexs(desc));
+                    let expect = move |n: &str| vec![format!("D/{}/{}/{}/{}", k, hexs(n), u, d)];
+                    check(tree, *kind, name, &expect, got)
+                }
+                CCall::R { kind, name, labels, level } => {
+                    let (k, l, m) = (KINDS[*kind], pairs(labels), format!("{}+{}+~", hexs("mv"), level));
+                    own.push((*kind, name.clone(), l.clone(), m.clone()));
+                    let expect = move |n: &str| vec![format!("R/{}/{}/{}/{}", k, hexs(n), l, m)];
+                    check(tree, *kind, name, &expect, got)
+                }
+                CCall::U { shared: sh, i, upd } => {
+                    let (kind, name, l, m) = if *sh {
+                        let r = &shared[*i];
+                        (r.kind, r.name.clone(), r.labels.clone(), r.meta.clone())
+                    } else {
+                        own[*i].clone()
+                    };
+                    let (k, u) = (KINDS[kind], upd.tok());
+                    let expect = move |n: &str| normalise_updates(&[format!("U/{}/{}/{}/{}/{}", k, hexs(n), l, m, u)]);
+                    let norm: Got = got.iter().map(|(k, v)| (*k, normalise_updates(v))).collect();
+                    check(tree, kind, &name, &expect, &norm)
+                }
+            };
+            if let Err(e) = res {
+                out.oracle_fail(
+                    "concurrent clients: an operation was not delivered as the property demands while other threads used the same tree",
+                    &format!("tree {:?}; {}; thread {} of {}, call {:?}; all scripts {:?}: {}", tree, how, t, scripts.len(), c, scripts, e),
+                );
+            }
+        }
+    }
+}
+
+fn gen_ccalls(r: &mut Rng, pool: &Pool, shared_kinds: &[usize], n: usize, small: bool) -> Vec<CCall> {
+    let mut calls = vec![];
+    let mut own: Vec<usize> = vec![];
+    for _ in 0..n {
+        let can_upd = !shared_kinds.is_empty() || !own.is_empty();
+        match if can_upd { r.weighted(&[2, 5, 4]) } else { r.weighted(&[2, 5]) } {
+            0 => calls.push(CCall::D {
+                kind: r.below(3),
+                name: pool.op_name(r),
+                unit: if r.chance(1, 3) { None } else { Some(*r.pick(&UNITS)) },
+                desc: r.pick_str(&["", "d", "é"]).to_string(),
+            }),
+            1 => {
+                let kind = r.below(3);
+                own.push(kind);
+                calls.push(CCall::R {
+                    kind,
+                    name: pool.op_name(r),
+                    labels: (0..r.weighted(&[3, 2, 1])).map(|_| (ident(r), wild_string(r, false))).collect(),
+                    level: r.below(5),
+                });
+            }
+            _ => {
+                let use_shared = !shared_kinds.is_empty() && (own.is_empty() || r.chance(1, 2));
+                let (i, kind) = if use_shared {
+                    let i = r.below(shared_kinds.len());
+                    (i, shared_kinds[i])
+                } else {
+                    let i = r.below(own.len());
+                    (i, own[i])
+                };
+                let mut upd = gen_upd(r, kind);
+                if let Upd::HMany(v, n) = upd {
+                    // every sample is a grant of the scheduler: keep the counts small here
+                    upd = Upd::HMany(v, if small { n % 4 } else { n % 9 });
+                }
+                calls.push(CCall::U { shared: use_shared, i, upd });
+            }
+        }
+    }
+    calls
+}
+
+fn conc_tok(log: &[(usize, usize, String)]) -> String {
+    let evs: Vec<String> = log.iter().filter(|e| e.1 != usize::MAX).map(|(t, id, ev)| format!("{}>{}:{}", t, id, ev)).collect();
+    if evs.is_empty() {
+        "none".into()
+    } else {
+        evs.join(";")
+    }
+}
+
+/// One concurrent case.  `schedule = Some(s)`: the client threads run under the deterministic scheduler (every call
+/// into a base recorder is a yield point), the grants actually made are handed to the model (`layers crun`), and the
+/// global log — who received what from which thread, in real-time order — must be the model's.  `None`: the threads
+/// run freely from a common barrier (real parallelism; what each thread causes does not depend on the schedule —
+/// `conc_complete` —, so each thread's part of the log is compared with `layers cfree`).
+fn run_conc_case(out: &mut Out, tree: &Tree, prologue: &[SOp], scripts: &[Vec<CCall>], schedule: Option<&[usize]>) {
+    let log: Log = Arc::new(Mutex::new(vec![]));
+    let top: BoxRec = build(tree, &log);
+    out.op(&format!("layers new {}", tree.tok()), "ok");
+    let mut ks = [0usize; 6];
+    tree.kinds(&mut ks);
+    if ks.iter().filter(|k| **k > 0).count() >= 2 {
+        out.nontrivial();
+    }
+    // shared handles: registered by the main thread before the client threads exist
+    let mut shared: Vec<SharedReg> = vec![];
+    for op in prologue {
+        if let SOp::R { kind, name, labels, target, level, module } = op {
+            let lv = [Level::TRACE, Level::DEBUG, Level::INFO, Level::WARN, Level::ERROR][*level];
+            let md = Metadata::new(target.as_str(), lv, module.as_deref());
+            let h = do_register(&top, 0, *kind, name, labels, &md, false, out);
+            let got = drain(&log);
+            let (ltok, mtok) = (pairs(labels), meta_tok(&md));
+            out.op(&format!("layers r {} {} {} {}", KINDS[*kind], hexs(name), ltok, mtok), &show(&got));
+            shared.push(SharedReg { handle: h, kind: *kind, name: name.clone(), labels: ltok, meta: mtok });
+        }
+    }
+    for (t, calls) in scripts.iter().enumerate() {
+        for c in calls {
+            out.op(&ccall_line(t, c), "ok");
+            out.count(match c {
+                CCall::D { .. } => "concurrent call: describe",
+                CCall::R { .. } => "concurrent call: register",
+                CCall::U { shared: true, .. } => "concurrent call: update through a handle shared between the threads",
+                CCall::U { shared: false, .. } => "concurrent call: update through an own handle",
+            });
+        }
+    }
+    out.count(&format!("concurrent: {} client threads", scripts.len()));
+    let n = scripts.len();
+    match schedule {
+        Some(sched) => {
+            // the tree is shared by reference (`&T: Send` because the layers are `Sync`); it is leaked for the
+            // duration of the process because the scheduler's threads are `'static` (small: a handful of nodes)
+            let top_ref: &'static BoxRec = Box::leak(Box::new(top));
+            let shared_handles: Arc<Vec<AnyHandle>> = Arc::new(shared.iter().map(|r| clone_handle(&r.handle)).collect());
+            let bodies: Vec<Box<dyn FnOnce() + Send + 'static>> = scripts
+                .iter()
+                .enumerate()
+                .map(|(t, calls)| {
+                    let (calls, sh, log) = (calls.clone(), shared_handles.clone(), log.clone());
+                    Box::new(move || client_body(t, top_ref.as_ref(), &sh, &calls, &log, false)) as Box<dyn FnOnce() + Send + 'static>
+                })
+                .collect();
+            let res = crate::sched::run(bodies, sched);
+            let entries: Vec<(usize, usize, String)> = log.lock().unwrap().drain(..).collect();
+            if res.deadlock || res.timed_out || !res.panicked.is_empty() {
+                out.oracle_fail(
+                    "concurrent clients: the run did not complete",
+                    &format!("tree {:?}; scripts {:?}; schedule {:?}: deadlock={} timed_out={} panicked={:?}", tree, scripts, sched, res.deadlock, res.timed_out, res.panicked),
+                );
+            }
+            let taken: Vec<usize> = res.trace.iter().map(|(t, _)| *t).collect();
+            out.op(&format!("layers crun {} {}", n, crate::sched::sched_tok(&taken)), &format!("done {}", conc_tok(&entries)));
+            let switches = taken.windows(2).filter(|w| w[0] != w[1]).count();
+            out.count(&format!("concurrent (scheduled): {} thread switches", bucket(switches)));
+            // was some client call interrupted (another thread's delivery between two deliveries of one call)?
+            let mut open: Vec<bool> = vec![false; n];
+            let mut interrupted = false;
+            for (t, id, _) in &entries {
+                if *id == usize::MAX {
+                    open[*t] = false;
+                } else {
+                    if open.iter().enumerate().any(|(u, o)| *o && u != *t) {
+                        interrupted = true;
+                    }
+                    open[*t] = true;
+                }
+            }
+            if interrupted {
+                out.count("concurrent (scheduled): a call ran while another thread was in the middle of a multi-recorder call");
+            }
+            conc_oracle(out, tree, &shared, scripts, &entries, &format!("deterministic schedule {}", crate::sched::sched_tok(&taken)));
+        }
+        None => {
+            let shared_handles: Vec<AnyHandle> = shared.iter().map(|r| clone_handle(&r.handle)).collect();
+            let barrier = std::sync::Barrier::new(n);
+            std::thread::scope(|sc| {
+                for (t, calls) in scripts.iter().enumerate() {
+                    let (top, sh, log, barrier) = (&top, &shared_handles, &log, &barrier);
+                    sc.spawn(move || {
+                        barrier.wait();
+                        client_body(t, top.as_ref(), sh, calls, log, true)
+                    });
+                }
+            });
+            let entries: Vec<(usize, usize, String)> = log.lock().unwrap().drain(..).collect();
+            let per: Vec<String> = (0..n)
+                .map(|t| {
+                    let evs: Vec<String> =
+                        entries.iter().filter(|e| e.0 == t && e.1 != usize::MAX).map(|(_, id, ev)| format!("{}:{}", id, ev)).collect();
+                    format!("{}>{}", t, if evs.is_empty() { "none".to_string() } else { evs.join(";") })
+                })
+                .collect();
+            out.op(&format!("layers cfree {}", n), &per.join("|"));
+            out.count(&format!("concurrent (free-running): {} calls into base recorders", bucket(entries.iter().filter(|e| e.1 != usize::MAX).count())));
+            conc_oracle(out, tree, &shared, scripts, &entries, "free-running threads");
+        }
+    }
+}
+
+/// hand-picked concurrent cases: two / three threads registering DIFFERENT names that go to DIFFERENT router
+/// targets, through a filter that drops one of them, and updating ONE shared fanned-out handle
+fn conc_corpus() -> Vec<(&'static str, Tree, Vec<SOp>, Vec<Vec<CCall>>)> {
+    let tree = Tree::S(
+        vec![LayerSpec::F { ci: true, dfa: true, pats: vec![s("DROP")] }, LayerSpec::P(s("app"))],
+        Box::new(Tree::R {
+            dflt: Box::new(Tree::N(vec![b(0), b(1)])),
+            routes: vec![(3, s("app.a"), Tree::N(vec![b(2), b(3)])), (0, s("app.ab"), b(4)), (3, s("app.b"), Tree::P(s("q"), Box::new(b(5))))],
+        }),
+    );
+    let reg = |kind: usize, name: &str| CCall::R { kind, name: s(name), labels: vec![(s("k"), s("v"))], level: 2 };
+    let prologue = vec![
+        SOp::R { kind: 0, name: s("a.shared"), labels: vec![], target: s("mv"), level: 2, module: None },
+        SOp::R { kind: 2, name: s("zz"), labels: vec![], target: s("mv"), level: 2, module: None },
+    ];
+    let t0 = vec![reg(0, "a1"), CCall::U { shared: false, i: 0, upd: Upd::CInc(1) }, reg(0, "ab1"), CCall::U { shared: true, i: 0, upd: Upd::CInc(10) }, CCall::U { shared: false, i: 1, upd: Upd::CAbs(2) }];
+    let t1 = vec![reg(0, "b1"), reg(0, "x.drop"), CCall::U { shared: true, i: 0, upd: Upd::CInc(20) }, CCall::U { shared: false, i: 0, upd: Upd::CInc(3) }, CCall::U { shared: true, i: 1, upd: Upd::HMany(1.5, 2) }];
+    let t2 = vec![CCall::D { kind: 1, name: s("a"), unit: Some(Unit::Bytes), desc: s("d") }, reg(1, "zzz"), CCall::U { shared: false, i: 0, upd: Upd::GSet(4.0) }, CCall::U { shared: true, i: 1, upd: Upd::HRec(0.5) }];
+    vec![
+        ("conc-two-threads-different-targets", tree.clone(), prologue.clone(), vec![t0.clone(), t1.clone()]),
+        ("conc-three-threads", tree, prologue, vec![t0, t1, t2]),
+    ]
+}
+
+fn gen_schedule(r: &mut Rng, n: usize, len: usize) -> Vec<usize> {
+    // runs of random length: long runs (one thread finishes a call undisturbed) and single steps (switch inside calls)
+    let mut s = vec![];
+    while s.len() < len {
+        let t = r.below(n);
+        let run = if r.chance(1, 2) { 1 } else { r.range(1, 6) };
+        for _ in 0..run {
+            s.push(t);
+        }
+    }
+    s
+}
+
+fn conc_cases(cfg: &Cfg, out: &mut Out) {
+    let root = Rng::new(cfg.seed ^ 0xc13c0);
+    for (ci, (tag, tree, prologue, scripts)) in conc_corpus().into_iter().enumerate() {
+        let mut r = root.fork(1000 + ci as u64);
+        // the extreme schedules, and seeded random ones
+        let n = scripts.len();
+        let mut scheds: Vec<Vec<usize>> = vec![vec![], (0..400).map(|i| i % n).collect(), (0..400).map(|i| n - 1 - (i % n)).collect()];
+        for _ in 0..if cfg.thorough { 40 } else { 6 } {
+            scheds.push(gen_schedule(&mut r, n, 200));
+        }
+        for (si, sc) in scheds.iter().enumerate() {
+            out.case(&format!("corpus {} schedule#{}", tag, si));
+            out.count("case: corpus (concurrent, scheduled)");
+            run_conc_case(out, &tree, &prologue, &scripts, Some(sc));
+        }
+        out.case(&format!("corpus {} free", tag));
+        out.count("case: corpus (concurrent, free-running)");
+        run_conc_case(out, &tree, &prologue, &scripts, None);
+    }
+    let (n_sched, n_free) = if cfg.thorough { (400, 80) } else { (60, 24) };
+    for i in 0..n_sched + n_free {
+        let mut r = root.fork(i as u64);
+        let scheduled = i < n_sched;
+        out.case(&format!("seed={} conc i={}", cfg.seed, i));
+        out.count(if scheduled { "case: generated (concurrent, scheduled)" } else { "case: generated (concurrent, free-running)" });
+        let pool = Pool::new(&mut r);
+        let mut next = 0usize;
+        let mut budget: isize = 10;
+        let depth = r.range(1, 3);
+        let tree = gen_tree(&mut r, &pool, depth, &mut next, &mut budget, true, "");
+        let mut pool = pool;
+        hot_names(&tree, "", &mut pool.hot);
+        pool.hot.sort();
+        pool.hot.dedup();
+        let nshared = r.range(0, 3);
+        let mut shared_kinds = vec![];
+        let mut prologue = vec![];
+        for _ in 0..nshared {
+            let kind = r.below(3);
+            shared_kinds.push(kind);
+            prologue.push(SOp::R { kind, name: pool.op_name(&mut r), labels: vec![], target: "mv".into(), level: 2, module: None });
+        }
+        let nthreads = if scheduled { r.range(2, 3) } else { r.range(2, 4) };
+        if !scheduled && i % 2 == 0 {
+            // "hammer": every thread registers (and now and then updates / describes) its OWN one or two names over
+            // and over, the threads' names going to different targets / verdicts — anything a layer remembered from
+            // one call to the next (a memo of the last route, of the last filter verdict, a scratch buffer for the
+            // prefixed name) would be shared between the threads here.  Half of the time on the hand-picked tree.
+            let (tree, names): (Tree, Vec<String>) = if i % 4 == 0 {
+                (conc_corpus().remove(0).1, ["a1", "ab1", "b1", "zz", "x.drop", "a", "abx", "Drop.b"].iter().map(|x| x.to_string()).collect())
+            } else {
+                let mut names = pool.hot.clone();
+                names.extend(pool.names.iter().cloned());
+                (tree, names)
+            };
+            let iters = if cfg.thorough { 6000 } else { 3000 };
+            let scripts: Vec<Vec<CCall>> = (0..nthreads)
+                .map(|t| {
+                    let mine: Vec<String> = (0..r.range(1, 2)).map(|j| names[(t * 2 + j + r.below(2)) % names.len()].clone()).collect();
+                    let kind = r.below(3);
+                    let mut calls = vec![];
+                    for it in 0..iters {
+                        let name = mine[it % mine.len()].clone();
+                        match it % 16 {
+                            7 => calls.push(CCall::D { kind, name, unit: None, desc: String::new() }),
+                            11 if !calls.is_empty() => {
+                                let nreg = calls.iter().filter(|c| matches!(c, CCall::R { .. })).count();
+                                let upd = match kind {
+                                    0 => Upd::CInc(it as u64),
+                                    1 => Upd::GSet(it as f64),
+                                    _ => Upd::HRec(it as f64),
+                                };
+                                calls.push(CCall::U { shared: false, i: nreg - 1, upd });
+                            }
+                            _ => calls.push(CCall::R { kind, name, labels: vec![], level: 2 }),
+                        }
+                    }
+                    calls
+                })
+                .collect();
+            out.count("case: generated (concurrent, free-running, hammer)");
+            run_conc_case(out, &tree, &[], &scripts, None);
+            continue;
+        }
+        let scripts: Vec<Vec<CCall>> = (0..nthreads)
+            .map(|_| {
+                let ncalls = if scheduled { r.range(2, 6) } else { r.range(300, 700) };
+                gen_ccalls(&mut r, &pool, &shared_kinds, ncalls, scheduled)
+            })
+            .collect();
+        if scheduled {
+            let sched = gen_schedule(&mut r, nthreads, 300);
+            run_conc_case(out, &tree, &prologue, &scripts, Some(&sched));
+        } else {
+            run_conc_case(out, &tree, &prologue, &scripts, None);
+        }
+    }
+    if cfg.thorough {
+        conc_enumerate(out);
+    }
+}
+
+/// Small-scope enumeration: EVERY schedule of two client threads, each making one register that fans out to two
+/// recorders behind a router and one update through its handle (thorough tier).
+fn conc_enumerate(out: &mut Out) {
+    let tree = Tree::R {
+        dflt: Box::new(b(0)),
+        routes: vec![(3, s("a"), Tree::N(vec![b(1), b(2)])), (3, s("b"), Tree::N(vec![b(3), Tree::P(s("p"), Box::new(b(4)))]))],
+    };
+    let scripts = vec![
+        vec![CCall::R { kind: 0, name: s("a1"), labels: vec![], level: 2 }, CCall::U { shared: false, i: 0, upd: Upd::CInc(1) }],
+        vec![CCall::R { kind: 0, name: s("b1"), labels: vec![], level: 2 }, CCall::U { shared: false, i: 0, upd: Upd::CInc(2) }],
+    ];
+    // first pass: collect every schedule (as the list of grants actually made) by depth-first replay
+    let mut all: Vec<Vec<usize>> = vec![];
+    {
+        let log: Log = Arc::new(Mutex::new(vec![]));
+        let top: &'static BoxRec = Box::leak(Box::new(build(&tree, &log)));
+        let sc2 = scripts.clone();
+        let mk = || -> Vec<Box<dyn FnOnce() + Send + 'static>> {
+            sc2.iter()
+                .enumerate()
+                .map(|(t, calls)| {
+                    let (calls, log) = (calls.clone(), log.clone());
+                    Box::new(move || client_body(t, top.as_ref(), &[], &calls, &log, false)) as Box<dyn FnOnce() + Send + 'static>
+                })
+                .collect()
+        };
+        let (_runs, _exhausted) = crate::sched::enumerate(mk, |taken, _| all.push(taken.to_vec()), 400);
+    }
+    for (i, sc) in all.iter().enumerate() {
+        out.case(&format!("enum-conc schedule#{}", i));
+        out.count("case: enumerated schedule of two client threads");
+        run_conc_case(out, &tree, &[], &scripts, Some(sc));
+    }
+}
+
 pub fn run(cfg: &Cfg, out: &mut Out) {
+    mask_cases(out);
+    conc_cases(cfg, out);
     for (tag, tree, script) in corpus() {
         out.case(&format!("corpus {}", tag));
         out.count("case: corpus");
@@ -2086,7 +2918,8 @@ pub fn run(cfg: &Cfg, out: &mut Out) {
         out.case(&format!("seed={} i={}", cfg.seed, i));
         out.count("case: generated");
         let pool = Pool::new(&mut r);
-        let depth = if cfg.thorough { r.range(1, 4) } else { r.range(1, 3) };
+        // size ceilings: now and then a deep (hence, with the node budget, narrow) tree
+        let depth = if r.chance(1, 15) { r.range(6, 9) } else if cfg.thorough { r.range(1, 4) } else { r.range(1, 3) };
         let mut next = 0usize;
         let mut budget: isize = if cfg.thorough { 24 } else { 14 };
         let tree = gen_tree(&mut r, &pool, depth, &mut next, &mut budget, true, "");
